@@ -79,9 +79,55 @@ func c17HostClass(c c17Conf) string {
 	return strings.Join(s, "+")
 }
 
+// c17MutVectors: the request header mutation vectors a rewrite is combined
+// with: all 4^3-1 non-empty ones in the thorough tier; in the quick tier the
+// seven with one operation kind on a non-empty subset of levels, for each of
+// append / overwrite, plus two mixed ones.
+func c17MutVectors(all bool) [][3]c17Mut {
+	mk := func(ops [3]string) [3]c17Mut {
+		var m [3]c17Mut
+		for l, op := range ops {
+			if op != "" {
+				m[l] = c17Mut{Op: op, Key: "x-k"}
+				if op != "remove" {
+					m[l].Value = c17LevelValues[l]
+				}
+			}
+		}
+		return m
+	}
+	var out [][3]c17Mut
+	if all {
+		for _, a := range c17Ops {
+			for _, b := range c17Ops {
+				for _, c := range c17Ops {
+					if a+b+c != "" {
+						out = append(out, mk([3]string{a, b, c}))
+					}
+				}
+			}
+		}
+		return out
+	}
+	for _, op := range []string{"append", "overwrite"} {
+		for mask := 1; mask < 8; mask++ {
+			var ops [3]string
+			for l := 0; l < 3; l++ {
+				if mask&(1<<l) != 0 {
+					ops[l] = op
+				}
+			}
+			out = append(out, mk(ops))
+		}
+	}
+	out = append(out, mk([3]string{"overwrite", "remove", "append"}), mk([3]string{"remove", "append", "overwrite"}))
+	return out
+}
+
 func TestVerifC17Rewrites(t *testing.T) {
 	c17Quiet()
 	p := vreport.Begin("C17", "router-rewrites", 3*time.Minute)
+	mutVectors := c17MutVectors(vreport.Thorough())
 	complete := vreport.Run(p,
 		func(yield func(c17RewriteCase) bool) {
 			for _, kind := range c17Kinds {
@@ -103,6 +149,16 @@ func TestVerifC17Rewrites(t *testing.T) {
 											if !yield(c17RewriteCase{Conf: conf, Req: q}) {
 												return
 											}
+											// the same rewrite together with header mutations of the three levels
+											// (the request then carries x-k once)
+											q.Headers = append(append([][2]string(nil), q.Headers...), [2]string{"x-k", "0"})
+											for _, mv := range mutVectors {
+												cm := conf
+												cm.Req = mv
+												if !yield(c17RewriteCase{Conf: cm, Req: q}) {
+													return
+												}
+											}
 										}
 									}
 								}
@@ -114,8 +170,8 @@ func TestVerifC17Rewrites(t *testing.T) {
 		},
 		c17CheckRewrite)
 	p.End(complete,
-		fmt.Sprintf("route kinds %v x prefix_rewrite %q x regex_rewrite %q x host_rewrite %q x auto_host_rewrite_header %q x paths %v x query %q x request carries the auto-host header or not; HTTP/1 request header object + variables as the HTTP/1 server stream provides them", c17Kinds, c17PrefixRewrites, c17RegexRewrites, c17HostRewrites, c17HostHeaders, c17Paths, c17Queries),
-		"cartesian product. Real: json -> v2.RouterConfiguration -> NewRouters -> MatchRoute -> RouteRule().FinalizeRequestHeaders (as downStream.receiveHeaders) -> stream/http.FillRequestHeadersFromCtxVar (as clientStream.AppendHeaders). Compared: the upstream request URI must be <reference path>[?<query>] and the upstream Host the reference host. Reference path: no rewrite -> unchanged; regex_rewrite alone -> hand-written substitution, for every route kind; prefix_rewrite alone on a prefix-matched route -> rewrite + rest (prefix replaced once at the front), on an exact-path route -> the rewrite. Reference host: host_rewrite; else value of the auto_host_rewrite_header header if the request has it; else unchanged. Enumerated but NOT compared (statement silent): prefix_rewrite together with regex_rewrite; prefix_rewrite on routes matched by regex / variable / headers / dsl (no prefix named); a path equal to the exact-path rule only ignoring case; host_rewrite together with auto_host_rewrite_header; whether and where the original path is recorded (x-mosn-original-path is only part of the outcome key); auto_host_rewrite=true (needs a live STRICT_DNS cluster, not built here). Requests the route does not match are counted and skipped (matching is C04). distinct = (route kind, rewrite config, path, query, host config, reference path/host); outcome = (upstream URI, Host, original-path header)")
+		fmt.Sprintf("route kinds %v x prefix_rewrite %q x regex_rewrite %q x host_rewrite %q x auto_host_rewrite_header %q x paths %v x query %q x request carries the auto-host header or not x { no header mutation | request carries x-k once and (route, virtual host, router) request header mutations from %d vectors (thorough: all 4^3-1; quick: append or overwrite on every non-empty subset of levels + 2 mixed) }; HTTP/1 request header object + variables as the HTTP/1 server stream provides them", c17Kinds, c17PrefixRewrites, c17RegexRewrites, c17HostRewrites, c17HostHeaders, c17Paths, c17Queries, len(mutVectors)),
+		"cartesian product. Real: json -> v2.RouterConfiguration -> NewRouters -> MatchRoute -> RouteRule().FinalizeRequestHeaders (as downStream.receiveHeaders) -> stream/http.FillRequestHeadersFromCtxVar (as clientStream.AppendHeaders). Compared: the upstream request URI must be <reference path>[?<query>] and the upstream Host the reference host. Reference path: no rewrite -> unchanged; regex_rewrite alone -> hand-written substitution, for every route kind; prefix_rewrite alone on a prefix-matched route -> rewrite + rest (prefix replaced once at the front), on an exact-path route -> the rewrite. Reference host: host_rewrite; else value of the auto_host_rewrite_header header if the request has it; else unchanged. Where header mutations are combined, the x-k values must equal the reference of the request-headers part. Enumerated but NOT compared (statement silent): prefix_rewrite together with regex_rewrite; prefix_rewrite on routes matched by regex / variable / headers / dsl (no prefix named); a path equal to the exact-path rule only ignoring case; host_rewrite together with auto_host_rewrite_header; whether and where the original path is recorded (x-mosn-original-path is only part of the outcome key); auto_host_rewrite=true (needs a live STRICT_DNS cluster, not built here). Requests the route does not match are counted and skipped (matching is C04). distinct = (route kind, rewrite config, path, query, host config, reference path/host); outcome = (upstream URI, Host, original-path header)")
 }
 
 func c17CheckRewrite(p *vreport.Part, c c17RewriteCase) {
@@ -151,8 +207,8 @@ func c17CheckRewrite(p *vreport.Part, c c17RewriteCase) {
 
 	wantPath, pathDecided := c17RefPath(c.Conf, c.Req.Path)
 	wantHost, hostDecided := c17RefHost(c.Conf, c.Req)
-	p.Distinct(fmt.Sprintf("%s|%s|%s|%s|%s|%s|%v|%s|%v|%s|%v", c.Conf.Kind, c.Conf.PrefixRewrite, c.Conf.RegexPattern, c.Req.Path, c.Req.Query, c.Conf.HostRewrite, c.Conf.HostHeader, wantPath, pathDecided, wantHost, len(c.Req.Headers)))
-	p.Outcome(up.URI + "|" + up.Host + "|" + orig)
+	p.Distinct(fmt.Sprintf("%s|%s|%s|%s|%s|%s|%s|%v|%s|%v|%s|%v", c17MutsString(c.Conf.Req), c.Conf.Kind, c.Conf.PrefixRewrite, c.Conf.RegexPattern, c.Req.Path, c.Req.Query, c.Conf.HostRewrite, c.Conf.HostHeader, wantPath, pathDecided, wantHost, len(c.Req.Headers)))
+	p.Outcome(up.URI + "|" + up.Host + "|" + orig + "|" + strings.Join(up.Headers["x-k"], ","))
 	if !pathDecided {
 		p.Count("path_not_decided_by_statement", 1)
 	}
@@ -162,6 +218,22 @@ func c17CheckRewrite(p *vreport.Part, c c17RewriteCase) {
 	if p.WantSample() {
 		p.Sample(map[string]interface{}{"config": text, "request": c.Req.String(), "upstream_uri": up.URI, "upstream_host": up.Host, "original_path_header": orig,
 			"reference_path": wantPath, "path_decided": pathDecided, "reference_host": wantHost, "host_decided": hostDecided})
+	}
+	if c.Conf.Req != ([3]c17Mut{}) {
+		var initial []string
+		for _, kv := range c.Req.Headers {
+			if kv[0] == "x-k" {
+				initial = append(initial, kv[1])
+			}
+		}
+		hc := c17HeaderCase{Dir: "request", Kind: c.Conf.Kind, Carrier: "http1", KeyCase: "lower", Muts: c.Conf.Req, Initial: initial}
+		want := c17RefHeader(initial, c.Conf.Req)
+		gotFlat, _ := c17Flat(up.Headers["x-k"])
+		wantFlat, _ := c17Flat(want)
+		if gotFlat != wantFlat || (len(want) == 0) != (len(up.Headers["x-k"]) == 0) {
+			p.Violation(fmt.Sprintf("request-headers: route kind %s, http1: %s", c17KindClass(c.Conf.Kind), c17Diagnose(hc, up.Headers["x-k"])),
+				fmt.Sprintf("(combined with rewrites) config %s request %s; mutations %s: expected x-k values %v, got %v", text, c.Req, c17MutsString(c.Conf.Req), want, up.Headers["x-k"]), c)
+		}
 	}
 	if pathDecided {
 		wantURI := wantPath
